@@ -46,11 +46,12 @@ let () =
         let nt = take_int r in
         let table = List.init nt (fun _ -> let k = str_of_field (take r) in let v = str_of_field (take r) in (k, v)) in
         let na = take_int r in
-        let args = List.init na (fun _ -> str_of_field (take r)) in
+        let targs = List.init na (fun _ -> let s = dec_bytes (take r) in let t = str_of_field (take r) in (tag_of_sep s, t)) in
+        let args = List.map snd targs in
         let nu = take_int r in
         let unq = List.init nu (fun _ -> let a = str_of_field (take r) in let b = str_of_field (take r) in (a, b)) in
         let unquote s = match List.assoc_opt s unq with Some x -> x | None -> s in
-        let (t', out) = if k = "bi" then alias_builtin unquote table args else unalias_builtin table args in
+        let (t', out) = if k = "bi" then alias_builtin unquote table targs else unalias_builtin table args in
         let o, err = match out with
           | OutList lines -> String.concat "\n" (List.sort compare (List.map bytes_of_str lines)), ""
           | OutOne line -> bytes_of_str line, ""
